@@ -1103,3 +1103,45 @@ func (c *Ctx) needAllErrNil(rule string, fn *ssa.Function, site ssa.Instruction,
 	sort.Strings(names)
 	c.R.OK(rule, Fn(fn), c.Pos(site), "success is cut by the nil-error edges of: "+strings.Join(names, ", "))
 }
+
+// globalMapConstEntries: g is an init-only package-level map (see globalMapConstKeys) whose values are integer constants too:
+// its entries.
+func (c *Ctx) globalMapConstEntries(g *ssa.Global) (map[int64]int64, bool) {
+	if _, ok := c.globalMapConstKeys(g); !ok {
+		return nil, false
+	}
+	ini := g.Pkg.Func("init")
+	var mk *ssa.MakeMap
+	for _, b := range ini.Blocks {
+		for _, ins := range b.Instrs {
+			if st, ok := ins.(*ssa.Store); ok && st.Addr == ssa.Value(g) {
+				mk, _ = st.Val.(*ssa.MakeMap)
+			}
+		}
+	}
+	if mk == nil {
+		return nil, false
+	}
+	out := map[int64]int64{}
+	for _, r := range *mk.Referrers() {
+		mu, ok := r.(*ssa.MapUpdate)
+		if !ok {
+			continue
+		}
+		k, ok1 := mu.Key.(*ssa.Const)
+		v, ok2 := mu.Value.(*ssa.Const)
+		if !ok1 || !ok2 {
+			return nil, false
+		}
+		kv, e1 := constInt64(k)
+		vv, e2 := constInt64(v)
+		if !e1 || !e2 {
+			return nil, false
+		}
+		if old, dup := out[kv]; dup && old != vv {
+			return nil, false
+		}
+		out[kv] = vv
+	}
+	return out, true
+}
